@@ -150,6 +150,9 @@ struct Plan {
     /// rewrite `.parse()` into vx_parse_f64 (R20)
     #[serde(default)]
     parse_f64: bool,
+    /// a keep list also keeps free functions / constants it does not name (helpers added later)
+    #[serde(default)]
+    keep_helpers: bool,
     /// generate entry facts for the string literals of every verified function (R18)
     #[serde(default)]
     strlit_facts: bool,
@@ -2388,7 +2391,7 @@ fn main() {
         if !plan.keep.is_empty() && !plan.keep.iter().any(|k| *k == key) {
             // a keep list selects types, impls and traits; a free function or constant the list does not know (a helper added later) is
             // kept as well, so that the kept code that calls it still resolves - it is verified like any other function without contract
-            if !matches!(item, syn::Item::Fn(_) | syn::Item::Const(_)) {
+            if !(plan.keep_helpers && matches!(item, syn::Item::Fn(_) | syn::Item::Const(_))) {
                 continue;
             }
             cx.out.log.push(format!("{}: item `{}` is not on the unit's keep list: kept because it is a free function / constant", short(&plan.file), key));
